@@ -104,9 +104,11 @@ def names_of(case):
     if case.get("kind") == "invariant":
         env = {"self": _Plain(dict((k, v) for k, v in env.items() if k in case["fields"]))}
     else:
-        env = dict((k, v) for k, v in env.items() if k in params)
+        fparams = case.get("fparams", params)
+        env = dict((k, v) for k, v in env.items() if k in fparams)
+        env.update(case.get("extra_kwargs", {}))
     names = dict(GLOB)
-    names.update(CLOSURE)
+    names.update(case.get("_closure", CLOSURE))
     names.update(env)
     return env, names
 
@@ -455,7 +457,7 @@ def check_values(case, io, mos=None):
             fails.append("the line key %r is not an expression" % key)
             continue
         shown[d] = val
-        is_arg = key.strip() in params
+        is_arg = key.strip() in params or key.strip() in io["args_rendered"]
         if is_arg and io["args_rendered"].get(key.strip()) == val:
             continue
         if d in ev_by_dump:
